@@ -393,6 +393,7 @@ func checkC16(c *Ctx, r *Report) {
 	}
 
 	ruleEarlyExitInventory(c, r, "C16.c", 3, "core/annotations")
+	ruleDecisionInputs(c, r, "C16.c", "gast")
 	ruleErrDrops(c, r, "C16.c", "core/annotations", "gast")
 	ruleHelperShape(c, r, "C16.b", helperShape{Fn: "(core/annotations.Attribute).GetProperty", MustFields: []string{"Properties"}, MustCommaOk: true,
 		Why: "a property is present iff its key is in the parsed JSON5 object - whatever its value, `null` included"})
